@@ -51,10 +51,10 @@ func (t *brokerPublishQOS2Transaction) Pubrel(pubrel *pkts1.Pubrel) error {
 		return err
 	}
 	t.client.messageHandlers.handle(t.client, topic, t.publish)
-	err = t.client.send(pubcomp)
-	if err != nil {
-		return err
-	}
+	// The message is delivered, the transaction is over whatever happens
+	// to the PUBCOMP: if it does not reach the gateway (or cannot be sent),
+	// the gateway repeats the PUBREL and that is only acknowledged again. It
+	// must not find the transaction and deliver the message once more.
 	t.Success()
-	return nil
+	return t.client.send(pubcomp)
 }
